@@ -40,6 +40,10 @@ pub struct HP {
     /// timer is delivered, the member is forgotten), so that the 8-bit timer token is about to wrap
     #[serde(default)]
     pub warmup_flaps: u32,
+    /// before the generated history: a member joins and this many probe rounds are played in deadline order,
+    /// each Ping answered, so that the 8-bit probe number is about to wrap
+    #[serde(default)]
+    pub warmup_probe_rounds: u32,
 }
 
 #[derive(Clone, Debug, serde::Serialize, serde::Deserialize)]
@@ -191,7 +195,7 @@ pub fn gen_hp(seed: u64, profile: &str, tier: Tier) -> HP {
     if profile == "C08" {
         setup.acc_twin = s.chance(1, 2);
     }
-    let mut hp = HP { profile: profile.to_string(), setup, addrs: s.range(3, 6) as u16, steps, timer_mode, weights, wild_config: wild, warmup_flaps: 0 };
+    let mut hp = HP { profile: profile.to_string(), setup, addrs: s.range(3, 6) as u16, steps, timer_mode, weights, wild_config: wild, warmup_flaps: 0, warmup_probe_rounds: 0 };
     // injected fault of the no-panic check only: the instance's codec fails at random calls
     if wild && hp.setup.codec.is_wire() && !hp.setup.policy.var_ids && s.chance(1, 3) {
         hp.setup.codec = CodecKind::WireFlaky;
@@ -200,6 +204,11 @@ pub fn gen_hp(seed: u64, profile: &str, tier: Tier) -> HP {
     let odds = if profile == "C13" || profile == "C11" { 10 } else { 40 };
     if s.chance(1, odds) {
         hp.warmup_flaps = 246 + s.below(14) as u32;
+    }
+    // ... or with the probe number about to wrap around
+    let odds = if profile == "C12" { 10 } else { 40 };
+    if hp.warmup_flaps == 0 && s.chance(1, odds) {
+        hp.warmup_probe_rounds = 246 + s.below(14) as u32;
     }
     hp
 }
@@ -583,6 +592,10 @@ pub fn run_hist(hp: &HP, seed: u64, steps: Option<&[Step]>) -> HistRun {
     let mut warm_left = if steps.is_none() { hp.warmup_flaps } else { 0 };
     let mut warm_phase = 0u8;
     let warm_id = SimId::new(2, OWN_GEN);
+    let mut probe_warm_left = if steps.is_none() { hp.warmup_probe_rounds } else { 0 };
+    let mut probe_warm_joined = false;
+    // the number of a Ping just sent to the warm-up member, to be acknowledged next
+    let mut owed_ack: Option<u8> = None;
     let mut generated = 0usize;
     let mut i = 0usize;
     loop {
@@ -596,6 +609,20 @@ pub fn run_hist(hp: &HP, seed: u64, steps: Option<&[Step]>) -> HistRun {
                 }
                 i += 1;
                 s[i - 1].clone()
+            }
+            None if probe_warm_left > 0 => {
+                if !probe_warm_joined {
+                    probe_warm_joined = true;
+                    Step::In(Input::ApplyMany(vec![Member::new(warm_id, 0, State::Alive)], false))
+                } else if let Some(n) = owed_ack.take() {
+                    probe_warm_left -= 1;
+                    Step::In(Input::Data(d.dgram(warm_id, 0, Message::Ack(n), None, &[])))
+                } else if d.pending.is_empty() {
+                    probe_warm_left = 0;
+                    continue;
+                } else {
+                    Step::NextTimer
+                }
             }
             None if warm_left > 0 => match warm_phase {
                 0 => {
@@ -645,6 +672,12 @@ pub fn run_hist(hp: &HP, seed: u64, steps: Option<&[Step]>) -> HistRun {
         }
         let rec = d.step(input);
         done.push(step);
+        if probe_warm_left > 0 {
+            owed_ack = rec.sends().find_map(|(to, data)| match crate::codec::parse_datagram(d.codec(), data).ok()?.header.message {
+                Message::Ping(n) if *to == warm_id => Some(n),
+                _ => None,
+            });
+        }
         for (_, _, seq) in d.pending.iter() {
             if *seq > seen_seq {
                 issue_time.insert(*seq, now);
